@@ -160,6 +160,7 @@ def worker_init():
     table, _unh = c06_eqhash.extract()
     _S.update(np=np, pd=pd, M=M, Model=Model, table={c["name"]: c for c in table}, base={}, scratch=scratch_root(),
               effects=None)
+    shutil.rmtree(_S["scratch"], ignore_errors=True)      # created per call case, removed after it
     try:
         from harness.translate import c06_effects
         _S["effects"] = c06_effects.verdicts()
@@ -781,6 +782,7 @@ def run_call(case, drv):
         kwargs = build_args(fn, f, model, rng)
     except Uncallable as e:
         return {"tags": [f"uncallable:{fn}", "uncallable"], "nontrivial": False}
+    _S["scratch"].mkdir(parents=True, exist_ok=True)
     os.chdir(_S["scratch"])
     before = snapshot(model)
     results = []
@@ -862,11 +864,8 @@ def run_call(case, drv):
             for (la, a), (lb, b) in zip(_components(r1), _components(r2)):
                 compare_pair(a, b, drv, k, mon, tags, f"{fn} twice .{la}")
         compare_pair(model, r1, drv, k, mon, tags, f"{fn} argument vs result")
-    for p in list(_S["scratch"].iterdir()):
-        if p.is_dir():
-            shutil.rmtree(p, ignore_errors=True)
-        else:
-            p.unlink(missing_ok=True)
+    os.chdir("/")
+    shutil.rmtree(_S["scratch"], ignore_errors=True)     # nothing is left behind between cases
     return {"k": k, "mon": mon, "tags": tags, "nontrivial": True}
 
 
